@@ -34,7 +34,7 @@ fn gen_plan(rng: &mut Rng) -> ReqPlan {
         1 => Finish::Drop,
         _ => Finish::Writer { status: 200, body_len: 5, parts: vec![(1000, true)], early_drop_sleep_us: 0 },
     };
-    ReqPlan { read, read_sizes: vec![*rng.pick(&[1usize, 100, 4096, 65536])], as_reader_calls: 1, finish, pre_delay_us: 0 }
+    ReqPlan { read, read_sizes: vec![*rng.pick(&[1usize, 100, 4096, 65536])], as_reader_calls: 1, finish, pre_delay_us: 0, zero_read_after: None }
 }
 
 fn sprinkle(rng: &mut Rng, b: &mut Vec<u8>, n: usize) {
@@ -53,7 +53,7 @@ fn sprinkle(rng: &mut Rng, b: &mut Vec<u8>, n: usize) {
 }
 
 pub fn gen_case(rng: &mut Rng, thorough: bool) -> Case {
-    let class = rng.below(if thorough { 9 } else { 8 });
+    let class = rng.below(if thorough { 10 } else { 9 });
     let mut plans = vec![gen_plan(rng), gen_plan(rng), gen_plan(rng)];
     let mut wire: Vec<u8>;
     let mut label;
@@ -131,6 +131,18 @@ pub fn gen_case(rng: &mut Rng, thorough: bool) -> Case {
             ]);
             wire = format!("POST /f HTTP/1.1\r\nHost: h\r\n{}\r\n\r\nhello world", v).into_bytes();
         }
+        8 => {
+            // header values that the library itself interprets, with hostile contents
+            let te = *rng.pick(&[
+                "gzip;q=NaN, chunked;q=0.5", "chunked;q=nan, identity;q=NaN", "identity;q=inf, chunked;q=-inf", "chunked;q=1e400, identity;q=-1e400",
+                "chunked;q=-0, identity;q=+0", ",,,;;;,", ";q=1, ;q=0", "chunked;q=0.5;q=NaN, identity;q=NaN;q=1",
+                "a;q=NaN, b;q=NaN, c;q=NaN, chunked;q=NaN, identity;q=0.1", "chunked;q=340282350000000000000000000000000000001",
+            ]);
+            let conn = *rng.pick(&["keep-alive", ",,,", "close, close, close", "\u{7f}", "upgrade, close"]);
+            label = format!("odd-te:{}", te.len());
+            let long = if rng.chance(1, 4) { format!("TE: {}\r\n", vec!["x;q=NaN"; 2000].join(", ")) } else { String::new() };
+            wire = format!("GET /t HTTP/1.1\r\nHost: h\r\nTE: {}\r\n{}Connection: {}\r\n\r\nGET /t2 HTTP/1.1\r\nTE: {}\r\n\r\n", te, long, conn, te).into_bytes();
+        }
         _ => {
             let n = 5_000_000;
             label = "5MB-line".to_string();
@@ -194,6 +206,12 @@ pub fn run_case(ctx: &Ctx, env: &Env, cs: u64, side: &mut Option<std::fs::File>)
         keep_read_track: true,
     };
     let panics_before = crate::env::panics_count();
+    if std::env::var("VH_DEBUG_INFLIGHT").is_ok() {
+        let f = crate::env::tasks_in_flight();
+        if f != 0 {
+            eprintln!("case {} [{}] starts with {} connection task(s) in flight", cs, c.label, f);
+        }
+    }
     let acc0 = crate::env::accepted_count();
     let con0 = crate::net::CONNECTS.load(std::sync::atomic::Ordering::SeqCst);
     if std::env::var("VH_ALLOC_TRACE").is_ok() {
@@ -206,7 +224,15 @@ pub fn run_case(ctx: &Ctx, env: &Env, cs: u64, side: &mut Option<std::fs::File>)
     let made = crate::net::CONNECTS.load(std::sync::atomic::Ordering::SeqCst) - con0;
     let quiet = crate::env::wait_tasks_done(acc0 + made, std::time::Duration::from_secs(5));
     crate::env::reads_forget(obs.client_port);
-    let st = crate::alloc::track_end();
+    let fl = crate::env::tasks_in_flight();
+    if fl < 0 {
+        rep.inc("diag_inflight_negative_after_case");
+    } else if fl > 0 {
+        rep.inc("diag_inflight_positive_after_case");
+    }
+    let _global = crate::alloc::track_end();
+    // counters of this case's own connection (client port), not of the process
+    let st = crate::alloc::key_stats(obs.client_port);
     let sent = wl as u64;
     if !quiet {
         // the connection thread is still busy: allocation counters cannot be attributed
